@@ -554,10 +554,32 @@ fn gen_atom(t: &mut Tape, tb: &ATable, gate: bool, exact: bool) -> APred {
         }
         lit_for(t, &ty, exact)
     };
-    match t.weighted(&[6, 2, if gate { 0 } else { 2 }]) {
+    match t.weighted(&[12, 4, if gate { 0 } else { 4 }, if gate { 0 } else { 1 }, if gate { 0 } else { 2 }]) {
         0 => APred::Cmp(AExpr::Col(ci), *t.pick(&[BinOp::Eq, BinOp::Lt, BinOp::Gt, BinOp::Le, BinOp::Ge, BinOp::Ne]), AExpr::Lit(pick_lit(t))),
         1 => APred::Between(AExpr::Col(ci), AExpr::Lit(pick_lit(t)), AExpr::Lit(pick_lit(t))),
-        _ => APred::IsNull(AExpr::Col(ci), t.chance(1, 2)),
+        2 => APred::IsNull(AExpr::Col(ci), t.chance(1, 2)),
+        // a constant condition (folds to TRUE / FALSE before any row is read)
+        3 => APred::Cmp(AExpr::Lit(V::Int(1)), BinOp::Eq, AExpr::Lit(V::Int(t.below(2) as i64))),
+        // a literal of the other numeric type, on the boundary of a stored value when possible
+        _ => {
+            let stored: Option<f64> = if !tb.rows.is_empty() {
+                match &tb.rows[t.below(tb.rows.len())][ci] {
+                    V::Int(i) => Some(*i as f64),
+                    V::Double(b) => Some(f64::from_bits(*b)),
+                    _ => None,
+                }
+            } else {
+                None
+            };
+            let lit = match (&ty, stored) {
+                (ColTy::Double, Some(f)) if f.fract() == 0.0 && f.abs() < 1e9 => V::Int(f as i64),
+                (ColTy::Double, _) => V::Int(t.range(-2, 3)),
+                (ColTy::Int, Some(f)) => V::dbl(if t.chance(1, 2) { f } else { f + 0.5 }),
+                (ColTy::Int, None) => V::dbl(1.5),
+                _ => pick_lit(t),
+            };
+            APred::Cmp(AExpr::Col(ci), *t.pick(&[BinOp::Le, BinOp::Ge, BinOp::Lt, BinOp::Gt, BinOp::Eq, BinOp::Ne]), AExpr::Lit(lit))
+        }
     }
 }
 
